@@ -405,31 +405,47 @@ def find_replay(dname, name, rule, detail):
 # ------------------------------------------------------------------ synthetic tokens of the suggestion builder
 def synthetic_obligations(rep):
     import mindsdb_sql
+    import sly.lex as sly_lex
     d = lrtab.load('mindsdb')
     fn = 'mindsdb_sql:ErrorHandling.make_suggestion'
     pats = {}
     for name, value in d.Lexer._rules:
         pats[name] = value if isinstance(value, str) else getattr(value, 'pattern', None)
     for tok in sorted(d.Lexer.tokens):
+        # the token the suggestion builder really makes up for this kind: run the real make_suggestion on a rejected input (bad token present,
+        # 2 candidates, so the validation loop is entered) and record what it hands to query_is_valid
         eh = mindsdb_sql.ErrorHandling(d.Lexer(), d.Parser())
-        eh.tokens, eh.bad_token, eh.expected_tokens = [object()], None, [tok, 'COMMA' if tok != 'COMMA' else 'DOT']
+        bad = sly_lex.Token()
+        bad.type, bad.value, bad.index, bad.lineno, bad.end = 'COMMA', ',', 0, 1, 1
+        eh.tokens, eh.bad_token, eh.expected_tokens = [bad], bad, [tok, 'SEMICOLON' if tok != 'SEMICOLON' else 'DOT']
+        made = []
+
+        def spy(tokens, made=made):
+            made.extend(t for t in tokens if t is not bad)
+            return False
+        eh.query_is_valid = spy
         try:
-            sug = eh.make_suggestion()
+            eh.make_suggestion()
         except Exception as e:
             continue
-        mine = [s for s in sug if s not in (',', '.')]
+        mine = [t for t in made if getattr(t, 'type', None) == tok]
         if not mine:
-            continue
-        val = mine[0]
-        if val == '[identifier]':
-            continue                     # never validated by re-parsing (single suggestion path)
+            continue                     # never validated by re-parsing (single suggestion path / not displayable)
+        val = mine[0].value
         oid = f'C02.synthetic.{tok}'
         clause = 'the value of a synthesised token matches the regex of its token kind (callee precondition of the grammar actions)'
         pat = pats.get(tok)
-        ok = pat is not None and re.fullmatch(pat, val, d.Lexer.reflags) is not None
+        ok = isinstance(val, str) and pat is not None and re.fullmatch(pat, val, d.Lexer.reflags) is not None
         has_action_pre = tok in ('INTEGER', 'FLOAT')
+        if has_action_pre and not ok:
+            # the precondition of the action is what matters: int() / float() must read the value
+            try:
+                (int if tok == 'INTEGER' else float)(val)
+                ok = True
+            except Exception:
+                pass
         if ok or not has_action_pre:
-            rep.proved(oid, 'lrtab', f'{val!r} {"matches" if ok else "does not match"} {pat!r}' + ('' if ok else ' (no action depends on the lexical form of this kind)'), function=fn, clause=clause)
+            rep.proved(oid, 'lrtab', f'{val!r} {"is read by the action of" if ok else "does not match"} {pat!r}' + ('' if ok else ' (no action depends on the lexical form of this kind)'), function=fn, clause=clause)
         else:
             rep.failed(oid, 'lrtab', f'synthetic {tok} token carries {val!r}, which does not match {pat!r}: the action int()/float() raises ValueError when the suggestion is validated by re-parsing',
                        function=fn, clause=clause, replay=replay_synthetic(tok))
